@@ -58,3 +58,60 @@ def readPointsLast (bytes : List Char) (sep comment : Char) : Option (List (Int 
   readPointsLastLoop g (csvSkipper comment) (bytes.length + 1) bytes []
 
 end SharkVerif.Import.Csv
+
+/-! ### exporters as token printers (`detail::exportCSV_labeled`, `exportSparseData`) -/
+namespace SharkVerif.Import.Export
+
+def natDigits (n : Nat) : List Char := (toString n).toList
+
+/-- exact decimal rendering of a dyadic value `± m·2^e` (what `operator<<` prints, up to
+the notation: the C++ uses scientific notation with 10 resp. 6 digits, exact for the
+values the round-trip generator uses) -/
+def showVal : Val → List Char
+  | .fin neg m e =>
+    let sign := if neg && m != 0 then ['-'] else []
+    if e ≥ 0 then sign ++ natDigits (m * 2 ^ e.toNat)
+    else
+      let k := (-e).toNat
+      let n := m * 5 ^ k
+      let ip := n / 10 ^ k
+      let fp := natDigits (n % 10 ^ k)
+      sign ++ natDigits ip ++ ['.'] ++ List.replicate (k - fp.length) '0' ++ fp
+  | .inf neg => if neg then "-inf".toList else "inf".toList
+  | .nan => "nan".toList
+
+def joinWith (sep : List Char) : List (List Char) → List Char
+  | [] => []
+  | [a] => a
+  | a :: t => a ++ sep ++ joinWith sep t
+
+/-- `exportCSV(LabeledData<RealVector, unsigned int>, …, lp, separator)` -/
+def csvClass (pts : List (Nat × List Val)) (labelFirst : Bool) (sep : Char) : List Char :=
+  pts.flatMap fun p =>
+    let cells := p.2.map showVal
+    let all := if labelFirst then natDigits p.1 :: cells else cells ++ [natDigits p.1]
+    joinWith [sep] all ++ ['\n']
+
+/-- `exportCSV(LabeledData<RealVector, RealVector>, …, lp, separator)` -/
+def csvRegr (pts : List (List Val × List Val)) (labelFirst : Bool) (sep : Char) : List Char :=
+  pts.flatMap fun p =>
+    let ins := p.1.map showVal
+    let outs := p.2.map showVal
+    joinWith [sep] (if labelFirst then outs ++ ins else ins ++ outs) ++ ['\n']
+
+def svmFeats (vs : List Val) : List Char :=
+  (List.zip (List.range vs.length) vs).flatMap fun q => [' '] ++ natDigits (q.1 + 1) ++ [':'] ++ showVal q.2
+
+/-- `exportSparseData(LabeledData<InputType, unsigned int>)` with the default `oneMinusOne = true` -/
+def svmClass (pts : List (Nat × List Val)) : List Char :=
+  let classes := numberOfClasses (pts.map (·.1))
+  pts.flatMap fun p =>
+    let lab : List Char :=
+      if classes == 2 then (if p.1 == 0 then "-1".toList else natDigits (2 * p.1 - 1)) else natDigits (p.1 + 1)
+    lab ++ [' '] ++ svmFeats p.2 ++ ['\n']
+
+/-- `exportSparseData(LabeledData<InputType, RealVector>)` -/
+def svmRegr (pts : List (Val × List Val)) : List Char :=
+  pts.flatMap fun p => showVal p.1 ++ svmFeats p.2 ++ ['\n']
+
+end SharkVerif.Import.Export
